@@ -79,6 +79,7 @@ class H1Server(simnet.Peer):
         self.close_after_response = False
         self.closed_by_client = False
         self.tls_seen = []
+        self.reuse_violations = []      # C01: a further request arrived while the previous response was not completely read
 
     def on_tls(self, offer, server_hostname):
         self.tls_seen.append((offer, server_hostname))
@@ -86,6 +87,9 @@ class H1Server(simnet.Peer):
 
     def on_write(self, data):
         self.written += data
+        if data and not self.inbuf and self.requests and self.out:
+            self.reuse_violations.append({"request_index": len(self.requests), "unread_response_bytes": sum(len(x) for x in self.out),
+                                          "server_had_closed": self.server_closed, "first_bytes": bytes(data[:40])})
         self.inbuf += data
         for req in parse_h1_requests(self.inbuf):
             idx = len(self.requests)
@@ -123,6 +127,34 @@ def closing_policy(server, req, idx):
     body = b"echo:" + req["target"] + b":" + req["body"]
     server.close_after_response = True
     return b"HTTP/1.1 200 OK\r\nConnection: close\r\nContent-Length: %d\r\n\r\n" % len(body) + body
+
+
+def http10_policy(server, req, idx):
+    """an HTTP/1.0 peer: no keep-alive, the connection is closed after the response"""
+    body = b"echo:" + req["target"] + b":" + req["body"]
+    server.close_after_response = True
+    return b"HTTP/1.0 200 OK\r\nContent-Length: %d\r\n\r\n" % len(body) + body
+
+
+def until_close_policy(server, req, idx):
+    """close-delimited body"""
+    body = b"echo:" + req["target"] + b":" + req["body"]
+    server.close_after_response = True
+    return b"HTTP/1.1 200 OK\r\n\r\n" + body
+
+
+def chunked_policy(server, req, idx):
+    body = b"echo:" + req["target"] + b":" + req["body"]
+    cut = max(1, len(body) // 2)
+    return (b"HTTP/1.1 200 OK\r\nTransfer-Encoding: chunked\r\n\r\n" + b"%x\r\n" % cut + body[:cut] + b"\r\n" +
+            b"%x\r\n" % (len(body) - cut) + body[cut:] + b"\r\n0\r\n\r\n" if len(body) > cut else
+            b"HTTP/1.1 200 OK\r\nTransfer-Encoding: chunked\r\n\r\n" + b"%x\r\n" % len(body) + body + b"\r\n0\r\n\r\n")
+
+
+def long_policy(server, req, idx):
+    """a body long enough to need several reads"""
+    body = b"echo:" + req["target"] + b":" + req["body"] + b":" + b"z" * 3000
+    return b"HTTP/1.1 200 OK\r\nContent-Length: %d\r\n\r\n" % len(body) + body
 
 
 class ProxyServer(simnet.Peer):
